@@ -59,7 +59,7 @@ std::vector<Sub> vh_subs() {
   {
     Sub s;
     s.name = "vec";  // element-wise API: sources stay intact, also when another argument aliases the output
-    s.fields = {{"k", 1, 14}, {"op", 1, vecops::NOPS - 1}, {"res_size", 0, 5}, {"a_size", 0, 5}, {"b_size", 0, 5}, {"pad", 0, 3}, {"alias", 0, 2},
+    s.fields = {{"k", 1, 14}, {"op", 1, vecops::NOPS - 1}, {"res_size", 0, 5}, {"a_size", 0, 5}, {"b_size", 0, 5}, {"pad", 0, 3}, {"alias", 0, 3},
                 {"mtype", 0, 1}, {"cfg", 0, 1}, {"pmode", 0, 3}, {"pj", 0, 17}, {"pu", 0, INT64_MAX - 1}, {"neg", 0, 1}, {"bits", 1, 61},
                 {"seed", 0, INT64_MAX - 1}};
     s.run = [](const Vals& v, Ctx& ctx) {
@@ -67,7 +67,7 @@ std::vector<Sub> vh_subs() {
       c.k = v[0]; c.op = (int)v[1]; c.rs = v[2]; c.as = v[3]; c.bs = v[4];
       c.rpad = v[5]; c.apad = (v[5] + 1) % 4; c.bpad = (v[5] + 2) % 4;
       const auto& o = vecops::OPS[c.op];
-      c.alias = (int)v[6];
+      c.alias = v[6] == 3 ? 4 : (int)v[6];  // 4: a and b are two views of one source buffer
       if (o.nin == 1 && c.alias == 2) c.alias = 0;
       if (o.res_big) c.rpad = 0;
       c.mtype = (int)v[7];
@@ -120,7 +120,7 @@ std::vector<Sub> vh_subs() {
         }
         case 1: {  // dft: source a
           Buf A = ar.alloc(ext(s1), UNDER, 0, 3, v[11]), D = ar.alloc(s2 * dl, OVER, 0, 1);
-          for (uint64_t i = 0; i < s1; ++i) fill_small(A.as<int64_t>() + i * sl, n, mt == FFT64 ? 49 : 62, r);
+          for (uint64_t i = 0; i < s1; ++i) fill_small(A.as<int64_t>() + i * sl, n, mt == FFT64 ? 50 : 62, r);
           sn.add("source a", A.p, A.len);
           vec_znx_dft(mod, (VEC_ZNX_DFT*)D.p, s2, A.as<int64_t>(), s1, sl);
           break;
@@ -141,7 +141,7 @@ std::vector<Sub> vh_subs() {
         }
         case 4: {  // svp_prepare: source pol
           Buf P = ar.alloc(n * 8, UNDER), PP = ar.alloc(bytes_of_svp_ppol(mod), OVER, 0, 1);
-          fill_small(P.as<int64_t>(), n, 49, r);
+          fill_small(P.as<int64_t>(), n, 50, r);
           sn.add("source pol", P.p, P.len);
           svp_prepare(mod, (SVP_PPOL*)PP.p, P.as<int64_t>());
           break;
@@ -270,7 +270,7 @@ std::vector<Sub> vh_subs() {
         }
         case 5: {
           Buf I = ar.alloc(2 * m * 8, UNDER), O = ar.alloc(2 * m * 8, OVER, 0, 1);
-          fill_small(I.as<int64_t>(), 2 * m, 49, r);
+          fill_small(I.as<int64_t>(), 2 * m, 50, r);
           sn.add("source x", I.p, I.len);
           sources = 1;
           reim_from_znx64((REIM_FROM_ZNX64_PRECOMP*)obj, O.p, I.as<int64_t>());
